@@ -12,7 +12,7 @@ use crate::src::Src;
 
 pub struct C15;
 
-const NAMES: &[&str] = &["a", "ab", "a_b", "b", "a_b_c", "b_c", "c"];
+const NAMES: &[&str] = &["a", "ab", "a_b", "b", "a_b_c", "b_c", "c", "b__c", "a_b__c", "a__b_c", "_a_b", "a_b_"];
 const HELPS: &[&str] = &["h", "hh", "h\u{ff}", "é", "h h"];
 const LNAMES: &[&str] = &["a", "b", "ab", "ba", "c"];
 const VALUES: &[&str] = &["", "a", "b", "ab", "ba", "é", "a\u{ff}", "\u{ff}"];
@@ -133,11 +133,20 @@ fn resplit_name(src: &mut Src, s: &mut Spec) {
     }
     let c1 = cuts[src.below(cuts.len())];
     let (l, r) = (&full[..c1], &full[c1 + 1..]);
-    if l.is_empty() || r.is_empty() || l.ends_with('_') || r.starts_with('_') {
+    // (either part may itself begin or end with an underscore: "b_" + "_" + "c" is the name "b__c")
+    if l.is_empty() || r.is_empty() {
         return;
     }
     if src.chance(128) {
         s.ns = l.to_string();
+        // three-way: namespace, subsystem and name
+        let cuts2: Vec<usize> = r.match_indices('_').map(|(i, _)| i).filter(|i| *i > 0 && *i + 1 < r.len()).collect();
+        if !cuts2.is_empty() && src.chance(128) {
+            let c2 = cuts2[src.below(cuts2.len())];
+            s.sub = r[..c2].to_string();
+            s.name = r[c2 + 1..].to_string();
+            return;
+        }
     } else {
         s.sub = l.to_string();
     }
@@ -178,7 +187,18 @@ impl Property for C15 {
     }
 
     fn run(&self, src: &mut Src, rep: &mut Report) -> Verdict {
-        let a = gen_spec(src);
+        let mut used_pair = false;
+        match self.run_inner(src, rep, &mut used_pair) {
+            // both strings of the known FNV-1a collision were in play: reported under the collision's own signature
+            Verdict::Fail { sig, detail } if used_pair => Verdict::Fail { sig: "fnv64-collision-same-identity".into(), detail: format!("[{}] {}", sig, detail) },
+            v => v,
+        }
+    }
+}
+
+impl C15 {
+    fn run_inner(&self, src: &mut Src, rep: &mut Report, used_pair: &mut bool) -> Verdict {
+        let mut a = gen_spec(src);
         let mut b = a.clone();
         let how = src.below(13);
         let mut only_order = false;
@@ -293,11 +313,29 @@ impl Property for C15 {
             }
         }
 
+        // 0.4% of cases: the two descriptors differ in one place only, where one has the first and the other the second string of
+        // the known 64-bit FNV-1a collision (name, or first constant value)
+        if src.chance(1) {
+            let (x, y) = crate::pools::FNV64_COLLISION;
+            b = a.clone();
+            if !a.consts.is_empty() && src.chance(128) {
+                a.consts[0].1 = x.to_string();
+                b.consts[0].1 = y.to_string();
+            } else {
+                for s in [&mut a, &mut b] {
+                    s.ns.clear();
+                    s.sub.clear();
+                }
+                a.name = x.to_string();
+                b.name = y.to_string();
+            }
+            *used_pair = true;
+            rep.class("fnv64-collision-pair");
+        }
         // 10% of cases: one component (name, a constant value, the help, a constant or variable label name) is a long string
         // (24-83 characters) in A and a structural variant of it in B: a region removed or repeated (B = s[..x] + s[y..]), one
         // character changed, or nothing changed. Hash functions that work on fixed-size chunks, fold, or look at a prefix
         // separate short strings perfectly and go wrong exactly here.
-        let mut a = a;
         let mut long_component = false;
         if src.chance(24) {
             b = a.clone();
